@@ -337,7 +337,9 @@ func c19HarnessClock(nNames int, allKinds bool, clock bool) Harness {
 		// journal over the directory == journal over the good files alone
 		src2, err := journal.NewDirectoryGtfsrtSource(dir)
 		if err != nil {
-			harnessBug("second source: %v", err)
+			// the directory exists (it may be empty by now): a source over it yields nothing and ends
+			c.Fail("source-construction-failed", "{%s}: NewDirectoryGtfsrtSource on the existing directory (second source, after the entries that vanish are gone): %v", d, err)
+			return
 		}
 		var jd, jg *journal.Journal
 		if !guardSig(c, "BuildJournal(directory)", func() { jd = journal.BuildJournal(src2, farPast, farFuture) }) {
